@@ -60,7 +60,8 @@ def build(desc):
         s = desc.get('step', 1)
         return range(desc['start'], desc['start'] + s * desc['n'], s)
     if k == 'list':
-        return [dec_label(x) for x in desc['items']]
+        items = [dec_label(x) for x in desc['items']]
+        return tuple(items) if desc.get('as') == 'tuple' else items     # a tuple is as good a sequence of labels as a list
     if k == 'np':
         return np.array(desc['items'])
     if k == 'pdindex':
@@ -208,6 +209,7 @@ def catalogue(max_len, min_len=0, *, pandas=True):
         out.append({'k': 'list', 'items': str_labels[:n]})
         out.append({'k': 'list', 'items': mixed[:n]})
         out.append({'k': 'list', 'items': list(range(-1, n - 1))})
+        out.append({'k': 'list', 'items': str_labels[:n][::-1], 'as': 'tuple'})
         out.append({'k': 'np', 'items': list(range(2000, 2000 + n))})
         out.append({'k': 'np', 'items': [-1, 0, 4, 2, 9, 7, 3][:n]})
         out.append({'k': 'np', 'items': str_labels[:n]})
@@ -228,6 +230,7 @@ def catalogue_long():
         out.append({'k': 'range', 'start': 1990, 'n': n, 'step': 1})
         out.append({'k': 'range', 'start': -4, 'n': n, 'step': 3})
         out.append({'k': 'list', 'items': ['p%02d' % i for i in range(n)]})
+        out.append({'k': 'list', 'items': list(range(1, n + 1)), 'as': 'tuple'})
         out.append({'k': 'np', 'items': list(range(100, 100 + 2 * n, 2))})
         out.append({'k': 'period', 'freq': 'Q', 'start': '1999Q3', 'n': n})
         out.append({'k': 'datetime', 'freq': 'D', 'start': '2001-02-20', 'n': n})
